@@ -55,6 +55,9 @@ CHECKS = {
  "C07": ("deviation-bounded exhaustive enumeration of placeholder positions x bindings, parameter form vs literal form",
          "Every statement of the grammar model within 1 (2) structural deviations x every value token (identifier, string, integer, number, duration, regex in every position the grammar has) replaced by $p (also a quoted name) x each of ~85 bindings covering every branch of BindValue/bindObjectValue, string contents chosen to re-lex badly and unbindable values; thorough adds every pair of placeholders. Unbindable or unbound parameters must fail; otherwise the parameter form and the form with the literal written out (harness's own formatter) must both fail or produce the same AST through ParseQuery.",
          "Where a bound value has no literal spelling at the position (a regex outside regex positions, a negative number after an explicit sign, two placeholders glued into one dotted name) only totality is checked.", "3/C07"),
+ "C05": ("exhaustive enumeration of lexeme sequences against an independent folding/position model",
+         "Every concatenation of <=3 spellings from a 48-spelling core alphabet (thorough: 77 spellings, and length 4 over the core) - raw, so neighbours fuse, and pairs/triples also joined by 6 separators (CR, CRLF, LF, multi-byte rune, multi-line comment) - is scanned to EOF; wherever the next rune is '/' both Scan and ScanRegex are explored. Token extents are measured by the verif hook (runes fetched net of pushback), so tiling, progress and termination are decided independently of the positions under test; each token's Pos is compared with the reference position of its first rune.",
+         "Trusts the hook's rune accounting and the 30-line folding/position model. Parse-error positions are covered only through the token positions they are built from.", "3/C05"),
 }
 ALL = ["C%02d" % i for i in range(1, 21)]
 NOT_YET = "check not built yet in this revision of /verif (work in progress; see DESIGN.md section 3 for the planned bounded-exhaustive check)"
